@@ -85,6 +85,8 @@ type loc struct {
 	prefix string     // leaf path prefix inside root ("" = whole element)
 	typ    types.Type // type of the addressed sub-object
 	ghost  string
+	gkind  string // "", gmap, gmapa, gmapk
+	gkey   *Term  // entry of a ghost map (nil: the whole map)
 	mapv   *MapV
 	src    string
 }
@@ -109,6 +111,8 @@ func (c *evalCtx) evalLoc(e ast.Expr) (out []loc) {
 				c.errf("mem() of %T", v)
 			case "ghost":
 				return []loc{{ghost: call.Args[0].(*ast.Ident).Name, src: src}}
+			case "gmap", "gmapa", "gmapk":
+				return []loc{{ghost: call.Args[0].(*ast.Ident).Name, gkind: id.Name, src: src}}
 			case "everything":
 				return []loc{{all: true, src: src}}
 			case "old":
@@ -118,6 +122,19 @@ func (c *evalCtx) evalLoc(e ast.Expr) (out []loc) {
 	}
 	if id, ok := e.(*ast.Ident); ok && id.Name == "everything" {
 		return []loc{{all: true, src: src}}
+	}
+	if ie, ok := e.(*ast.IndexExpr); ok {
+		if call, ok := ie.X.(*ast.CallExpr); ok {
+			if id, ok := call.Fun.(*ast.Ident); ok && (id.Name == "gmap" || id.Name == "gmapa" || id.Name == "gmapk") {
+				var k *Term
+				if id.Name == "gmapk" {
+					k = keyTerm(c.rv(c.eval(ie.Index)))
+				} else {
+					k = c.term(ie.Index)
+				}
+				return []loc{{ghost: call.Args[0].(*ast.Ident).Name, gkind: id.Name, gkey: k, src: src}}
+			}
+		}
 	}
 	if se, ok := e.(*ast.SliceExpr); ok {
 		// s[a:b]: the elements a..b-1 of s (b may exceed len(s), up to cap)
@@ -209,7 +226,13 @@ func (x *Exec) havocLoc(st *State, l loc) {
 		}
 		x.havocAlloc(st)
 	case l.ghost != "":
-		st.ghost[l.ghost] = Sym(fresh("ghost."+l.ghost), SInt)
+		srt := ghostSort(l.gkind)
+		if l.gkey != nil {
+			cur := ghostGet(st.ghost, l.ghost, srt)
+			st.ghost[l.ghost] = Store(cur, l.gkey, Sym(fresh("ghost."+l.ghost), elemSort(srt)))
+		} else {
+			st.ghost[l.ghost] = Sym(fresh("ghost."+l.ghost), srt)
+		}
 	case l.mapv != nil:
 		x.havocMap(st, *l.mapv)
 	case l.mem:
@@ -249,9 +272,6 @@ func (x *Exec) havocAlloc(st *State) {
 // frameDuty: a write to (root,r,i,path) must be allowed by the function's assigns
 // clause (evaluated at entry) and by the assigns clauses of all enclosing loops.
 func (x *Exec) frameDuty(st *State, root types.Type, r, i *Term, path []pathElem, pos token.Pos, what string) {
-	if isFreshSym(r) {
-		return
-	}
 	prefix, _, _ := pathString(root, path)
 	fr := st.top
 	// loop-level frames (for havoc precision)
@@ -260,6 +280,9 @@ func (x *Exec) frameDuty(st *State, root types.Type, r, i *Term, path []pathElem
 			if snap == nil || !fr2.info.loopBlks[h][fr2.block.Index] || snap.locs == nil {
 				continue
 			}
+			if isFreshSym(r) && symNo(r.Name) > snap.gensym {
+				continue // allocated inside the loop
+			}
 			goal := Not(Select(snap.heap.alloc, r))
 			for _, l := range snap.locs {
 				goal = Or(goal, l.covers(root, r, i, prefix))
@@ -267,7 +290,7 @@ func (x *Exec) frameDuty(st *State, root types.Type, r, i *Term, path []pathElem
 			x.oblige(st, "frame-loop", x.pos(pos), fmt.Sprintf("%s stays inside the assigns clause of loop %d", what, fr2.info.headers[h]), x.allProps(), goal)
 		}
 	}
-	if x.fc == nil || !x.fc.HasAssigns {
+	if x.fc == nil || !x.fc.HasAssigns || isFreshSym(r) {
 		return
 	}
 	goal := Not(Select(st.old.alloc, r))
@@ -323,6 +346,7 @@ func (x *Exec) call(st *State, fr *Frame, instr ssa.Instruction, cc *ssa.CallCom
 			panic(unsupported("no interface contract for " + key))
 		}
 		x.p.trusted[key] = true
+		x.noLockHeld(st, pos, "call of "+key)
 		names := fc.Params
 		sig := cc.Method.Type().(*types.Signature)
 		bind(x.applyContract(st, fr, fc, key, names, append([]Value{recv}, args...), sig.Results(), pos))
@@ -362,6 +386,7 @@ func (x *Exec) call(st *State, fr *Frame, instr ssa.Instruction, cc *ssa.CallCom
 		panic(unsupported(fmt.Sprintf("no contract for dynamic call of %s (tried %s.%s, %s)", label, ckey, label, typeLabel(cc.Value.Type()))))
 	}
 	x.p.trusted[key] = true
+	x.noLockHeld(st, pos, "call of "+key)
 	sig := cc.Value.Type().Underlying().(*types.Signature)
 	bind(x.applyContract(st, fr, fc, key, fc.Params, append([]Value{fv}, args...), sig.Results(), pos))
 	return false
@@ -446,6 +471,9 @@ func (x *Exec) callStatic(st *State, fr *Frame, instr ssa.Instruction, fn *ssa.F
 	}
 	if fc.Trusted {
 		x.p.trusted[externKey(pkg, key)] = true
+	}
+	if pkg == "sync" {
+		x.noteLock(st, key, args, pos)
 	}
 	names := fc.Params
 	if names == nil {
@@ -651,6 +679,18 @@ func (x *Exec) contractPkg(fc *FuncContract) *types.Package {
 // calleeFrameDuty: a location the callee may assign must be assignable by the caller.
 func (x *Exec) calleeFrameDuty(st *State, l loc, key string, pos token.Pos) {
 	if l.ghost != "" {
+		// ghost state: the caller must list the same ghost variable in its own assigns clause
+		if x.fc != nil && x.fc.HasAssigns {
+			ok := false
+			for _, el := range x.entryLocs(st) {
+				if el.all || el.ghost == l.ghost {
+					ok = true
+				}
+			}
+			if !ok {
+				x.oblige(st, "frame", x.pos(pos), fmt.Sprintf("callee %s assigns ghost %s", key, l.ghost), x.framePropsOr(), tFalse)
+			}
+		}
 		return
 	}
 	what := fmt.Sprintf("callee %s assigns %s", key, l.src)
@@ -673,21 +713,11 @@ func (x *Exec) calleeFrameDuty(st *State, l loc, key string, pos token.Pos) {
 		return
 	}
 	if l.mem {
-		if isFreshSym(l.r) {
-			return
-		}
-		// loop frames
 		x.frameDutyRegion(st, l.root, l.r, pos, what)
 		return
 	}
 	if l.rng {
-		if isFreshSym(l.r) {
-			return
-		}
 		x.frameDutyRange(st, l, pos, what)
-		return
-	}
-	if isFreshSym(l.r) {
 		return
 	}
 	// object leaves: reuse frameDuty with a synthetic path
@@ -700,6 +730,9 @@ func (x *Exec) frameDutyRegion(st *State, root types.Type, r *Term, pos token.Po
 			if snap == nil || !fr2.info.loopBlks[h][fr2.block.Index] || snap.locs == nil {
 				continue
 			}
+			if isFreshSym(r) && symNo(r.Name) > snap.gensym {
+				continue
+			}
 			goal := Not(Select(snap.heap.alloc, r))
 			for _, l := range snap.locs {
 				if l.all || (l.mem && canon(l.root) == canon(root)) {
@@ -709,7 +742,7 @@ func (x *Exec) frameDutyRegion(st *State, root types.Type, r *Term, pos token.Po
 			x.oblige(st, "frame-loop", x.pos(pos), what, x.allProps(), goal)
 		}
 	}
-	if x.fc == nil || !x.fc.HasAssigns {
+	if x.fc == nil || !x.fc.HasAssigns || isFreshSym(r) {
 		return
 	}
 	goal := Not(Select(st.old.alloc, r))
@@ -740,6 +773,9 @@ func (x *Exec) frameDutyPrefix(st *State, root types.Type, r, i *Term, prefix st
 			if snap == nil || !fr2.info.loopBlks[h][fr2.block.Index] || snap.locs == nil {
 				continue
 			}
+			if isFreshSym(r) && symNo(r.Name) > snap.gensym {
+				continue
+			}
 			goal := Not(Select(snap.heap.alloc, r))
 			for _, l := range snap.locs {
 				goal = Or(goal, l.covers(root, r, i, prefix))
@@ -747,7 +783,7 @@ func (x *Exec) frameDutyPrefix(st *State, root types.Type, r, i *Term, prefix st
 			x.oblige(st, "frame-loop", x.pos(pos), what, x.allProps(), goal)
 		}
 	}
-	if x.fc == nil || !x.fc.HasAssigns {
+	if x.fc == nil || !x.fc.HasAssigns || isFreshSym(r) {
 		return
 	}
 	goal := Not(Select(st.old.alloc, r))
@@ -775,6 +811,9 @@ func (x *Exec) checkPost(st *State, fr *Frame, res Value, pos token.Pos) {
 		vars["result"] = res
 	}
 	c := x.ctxFor(st, fr, st.old, vars)
+	if ic := x.invCtx(st, fr, nil, nil, nil); ic != nil {
+		c.names, c.iter = ic.names, ic.iter
+	}
 	// proof steps: each assert is proved at this return with the locals in scope, then assumed
 	for _, cl := range x.fc.Asserts {
 		if !c.resolvable(cl.Expr) {
@@ -860,6 +899,13 @@ func (x *Exec) invCtx(st *State, fr *Frame, phis []*ssa.Phi, vals []Value, snap 
 	c.names = names
 	if snap != nil {
 		c.loop = snap.heap
+		c.loopGhost = snap.ghost
+	}
+	for _, v := range fr.env {
+		if it, ok := v.(Iter); ok {
+			itc := it
+			c.iter = &itc
+		}
 	}
 	return c
 }
@@ -876,7 +922,10 @@ func (x *Exec) loopEnter(st *State, fr *Frame, from, to *ssa.BasicBlock, ord int
 	if fr.fn != x.fn {
 		site = fkey + "." + site
 	}
-	snap := &loopSnap{heap: st.heap.clone()}
+	snap := &loopSnap{heap: st.heap.clone(), ghost: map[string]*Term{}, gensym: gensym}
+	for k, v := range st.ghost {
+		snap.ghost[k] = v
+	}
 	// 1. invariant holds on entry
 	c := x.invCtx(st, fr, phis, vals, snap)
 	for _, cl := range lc.Invariants {
@@ -1193,10 +1242,13 @@ func (x *Exec) frameDutyRange(st *State, l loc, pos token.Pos, what string) {
 			if snap == nil || !fr2.info.loopBlks[h][fr2.block.Index] || snap.locs == nil {
 				continue
 			}
+			if isFreshSym(l.r) && symNo(l.r.Name) > snap.gensym {
+				continue
+			}
 			x.oblige(st, "frame-loop", x.pos(pos), what, x.allProps(), mk(snap.heap.alloc, snap.locs))
 		}
 	}
-	if x.fc == nil || !x.fc.HasAssigns {
+	if x.fc == nil || !x.fc.HasAssigns || isFreshSym(l.r) {
 		return
 	}
 	x.oblige(st, "frame", x.pos(pos), what, x.framePropsOr(), mk(st.old.alloc, x.entryLocs(st)))
